@@ -6,6 +6,7 @@ allotted width or fails — and the width loop ends in a stable state in which
 every width holds its operand.
 -/
 import EtkVerif.Asm.Assemble
+import EtkVerif.Asm.LayoutAux
 namespace EtkVerif
 namespace Asm
 
@@ -26,15 +27,83 @@ theorem emit_append (c : Ctx) (a b : List Item) (ws : List Nat) :
        | .error e => .error e
        | .ok x => match emit c b (ws.drop (pushCount a)) with
          | .error e => .error e
-         | .ok y => .ok (x ++ y)) := by
-  sorry
+         | .ok y => .ok (x ++ y)) :=
+  emit_append' c a b ws
 
-/-- The total the positions pass computes is the length of what is emitted. -/
+theorem emit_length_aux (c : Ctx) (ready : List Item)
+    (himm : ∀ code imm, Item.op code imm ∈ ready → (imm.isSome ↔ (0x60 ≤ code ∧ code ≤ 0x7f)))
+    (ws : List Nat) (out : List Nat) (h : emit c ready ws = .ok out)
+    (pos : Nat) (ls : List (String × Option Nat)) :
+    (positionsPass ready ws pos ls).2 = pos + out.length := by
+  induction ready generalizing ws out pos ls with
+  | nil =>
+    simp only [emit, Except.ok.injEq] at h
+    subst h; rfl
+  | cons x rest ih =>
+    have himm' : ∀ code imm, Item.op code imm ∈ rest → (imm.isSome ↔ (0x60 ≤ code ∧ code ≤ 0x7f)) :=
+      fun code imm hm => himm code imm (List.mem_cons_of_mem _ hm)
+    rw [emit_cons] at h
+    cases hx : emitItem c x ws with
+    | error e => rw [hx] at h; simp at h
+    | ok bs =>
+      rw [hx] at h
+      simp only [] at h
+      cases hr : emit c rest (List.drop (pushCount [x]) ws) with
+      | error e => rw [hr] at h; simp at h
+      | ok more =>
+        rw [hr] at h
+        simp only [Except.ok.injEq] at h
+        subst h
+        cases x with
+        | label l =>
+          simp only [emitItem, Except.ok.injEq] at hx
+          subst hx
+          have hr' : emit c rest ws = .ok more := hr
+          simp only [positionsPass]
+          rw [ih himm' _ _ hr']
+          simp
+        | raw bytes =>
+          simp only [emitItem, Except.ok.injEq] at hx
+          subst hx
+          have hr' : emit c rest ws = .ok more := hr
+          simp only [positionsPass]
+          rw [ih himm' _ _ hr']
+          simp [Nat.add_assoc]
+        | op code imm =>
+          simp only [emitItem] at hx
+          have hx := Conc.toExcept_ok hx
+          have hr' : emit c rest ws = .ok more := hr
+          simp only [positionsPass]
+          rw [ih himm' _ _ hr']
+          cases imm with
+          | none =>
+            have hi := himm code none (List.mem_cons_self ..)
+            simp only [Option.isSome_none, Bool.false_eq_true, false_iff] at hi
+            have : immLen code = 0 := by unfold immLen; rw [if_neg hi]
+            simp only [concretizeOp, Conc.ok.injEq] at hx
+            subst hx
+            simp [this]; omega
+          | some e =>
+            have := (concretizeOp_some_length hx).1
+            simp [this]; omega
+        | push e =>
+          simp only [emitItem] at hx
+          have hx := Conc.toExcept_ok hx
+          have ⟨h1, h2⟩ := concretizeOp_some_length hx
+          have ⟨h3, _, _⟩ := immLen_push_width h2
+          have hr' : emit c rest (ws.drop 1) = .ok more := hr
+          simp only [positionsPass]
+          rw [ih himm' _ _ hr']
+          rw [List.length_append, h1, h3]; omega
+
+set_option linter.unusedVariables false in
+/-- The total the positions pass computes is the length of what is emitted.
+(`hw` is not needed: a successful `emit` already forces every consumed width into `1..32`.) -/
 theorem emit_length (c : Ctx) (ready : List Item) (hr : ReadyOK ready) (ws : List Nat)
     (hw : ws.length = pushCount ready) (out : List Nat) (h : emit c ready ws = .ok out)
     (pos : Nat) (ls : List (String × Option Nat)) :
-    (positionsPass ready ws pos ls).2 = pos + out.length := by
-  sorry
+    (positionsPass ready ws pos ls).2 = pos + out.length :=
+  emit_length_aux c ready hr.imm ws out h pos ls
 
 /-- C01 core.  After a positions pass with widths `ws`, every label of `ready`
 maps to the number of bytes emitted (at those widths) for the items before it. -/
@@ -44,7 +113,42 @@ theorem positions_are_offsets (c : Ctx) (ready : List Item) (hr : ReadyOK ready)
     (pre post : List Item) (l : String) (hsplit : ready = pre ++ Item.label l :: post) :
     ∃ outPre, emit c pre ws = .ok outPre ∧ outPre.length ≤ out.length ∧ out.take outPre.length = outPre ∧
       lookupLabel (positionsPass ready ws 0 ls0).1 l = some (some outPre.length) := by
-  sorry
+  subst hsplit
+  rw [emit_append] at h
+  cases hpre : emit c pre ws with
+  | error e => rw [hpre] at h; simp at h
+  | ok outPre =>
+    rw [hpre] at h
+    simp only [] at h
+    cases hpost : emit c (Item.label l :: post) (ws.drop (pushCount pre)) with
+    | error e => rw [hpost] at h; simp at h
+    | ok outPost =>
+      rw [hpost] at h
+      simp only [Except.ok.injEq] at h
+      subst h
+      refine ⟨outPre, rfl, by simp, by simp, ?_⟩
+      have hposPre := emit_length_aux c pre
+        (fun code imm hm => hr.imm code imm (List.mem_append_left _ hm)) ws outPre hpre 0 ls0
+      have hnd := hr.nodup
+      rw [List.filterMap_append, List.filterMap_cons] at hnd
+      simp only [] at hnd
+      rw [List.nodup_append, List.nodup_cons] at hnd
+      obtain ⟨_, ⟨hnpost, _⟩, hdisj⟩ := hnd
+      have hlpost : Item.label l ∉ post := by
+        intro hm
+        exact hnpost (List.mem_filterMap.2 ⟨_, hm, rfl⟩)
+      have hlpre : Item.label l ∉ pre := by
+        intro hm
+        exact hdisj l (List.mem_filterMap.2 ⟨_, hm, rfl⟩) l (List.mem_cons_self ..) rfl
+      obtain ⟨p, hp⟩ := hd l (by simp)
+      have hlk : lookupLabel (positionsPass pre ws 0 ls0).1 l = some (some p) := by
+        rw [positionsPass_lookup_other _ _ _ _ l hlpre, hp]
+      rw [positionsPass_append]
+      simp only [positionsPass]
+      rw [positionsPass_lookup_other _ _ _ _ l hlpost, hlk]
+      simp only []
+      rw [lookupLabel_setLabel, if_pos rfl, hposPre]
+      simp
 
 /-- The width loop ends (within its fuel) in a stable state: positions are those
 implied by the widths and no push needs more bytes than it has. -/
@@ -53,7 +157,36 @@ theorem layoutLoop_stable (s : St) (n : Nat) (hn : n = pushCount s.ready) :
     r.2.length = n ∧ (∀ w ∈ r.2, 1 ≤ w ∧ w ≤ 32) ∧
     r.1 = (positionsPass s.ready r.2 0 s.labels).1 ∧
     widthsPass { s.ctx with labels := r.1 } s.ready r.2 = r.2 := by
-  sorry
+  subst hn
+  exact layoutLoop_spec s (32 * pushCount s.ready + 2) (List.replicate (pushCount s.ready) 1)
+    (by simp)
+    (by intro w hw; have := List.eq_of_mem_replicate hw; omega)
+    (by simp; omega)
+
+/-- a successful emission splits at any item -/
+theorem emit_split {c : Ctx} {pre post : List Item} {x : Item} {ws out : List Nat}
+    (h : emit c (pre ++ x :: post) ws = .ok out) :
+    ∃ outPre bs outPost, emit c pre ws = .ok outPre ∧
+      emitItem c x (ws.drop (pushCount pre)) = .ok bs ∧ out = outPre ++ bs ++ outPost := by
+  rw [emit_append] at h
+  cases hpre : emit c pre ws with
+  | error e => rw [hpre] at h; simp at h
+  | ok outPre =>
+    rw [hpre] at h
+    simp only [] at h
+    rw [emit_cons] at h
+    cases hx : emitItem c x (ws.drop (pushCount pre)) with
+    | error e => rw [hx] at h; simp at h
+    | ok bs =>
+      rw [hx] at h
+      simp only [] at h
+      cases hr : emit c post (List.drop (pushCount [x]) (ws.drop (pushCount pre))) with
+      | error e => rw [hr] at h; simp at h
+      | ok outPost =>
+        rw [hr] at h
+        simp only [Except.ok.injEq] at h
+        subst h
+        exact ⟨outPre, bs, outPost, rfl, rfl, by simp⟩
 
 /-- What a successful emission writes for one variable-sized push: opcode
 `0x5f + w`, then the operand's value (under the emission context) as exactly `w`
@@ -65,7 +198,14 @@ theorem emit_push_exact (c : Ctx) (pre post : List Item) (e : Expr) (ws : List N
       v.toNat < 256 ^ (ws.drop (pushCount pre)).headD 1 ∧
       out = outPre ++ ((0x5f + (ws.drop (pushCount pre)).headD 1) ::
               (List.replicate ((ws.drop (pushCount pre)).headD 1 - (bytesBE v.toNat).length) 0 ++ bytesBE v.toNat)) ++ outPost := by
-  sorry
+  obtain ⟨outPre, bs, outPost, hpre, hx, rfl⟩ := emit_split h
+  have hx := Conc.toExcept_ok hx
+  obtain ⟨v, hv, h0, hlen, rfl⟩ := concretizeOp_some_ok hx
+  have hpos := bytesBE_length_pos v.toNat
+  obtain ⟨hw, _, _⟩ := immLen_push_width (w := (ws.drop (pushCount pre)).headD 1) (by omega)
+  rw [hw] at hlen
+  refine ⟨outPre, outPost, v, hpre, hv, h0, ?_, by rw [hw]⟩
+  exact Nat.lt_of_lt_of_le (bytesBE_spec' v.toNat).2.1 (Nat.pow_le_pow_right (by omega) hlen)
 
 /-- … and for a fixed-size `pushN e`: opcode byte, then exactly `N` big-endian
 bytes of the value, `0 ≤ v < 256^N` (C02 / C09: never wrapped or truncated). -/
@@ -74,15 +214,19 @@ theorem emit_op_exact (c : Ctx) (pre post : List Item) (code : Nat) (e : Expr) (
     ∃ (outPre outPost : List Nat) (v : Int),
       emit c pre ws = .ok outPre ∧ eval evalFuel c e = .ok v ∧ 0 ≤ v ∧ v.toNat < 256 ^ immLen code ∧
       out = outPre ++ (code :: (List.replicate (immLen code - (bytesBE v.toNat).length) 0 ++ bytesBE v.toNat)) ++ outPost := by
-  sorry
+  obtain ⟨outPre, bs, outPost, hpre, hx, rfl⟩ := emit_split h
+  have hx := Conc.toExcept_ok hx
+  obtain ⟨v, hv, h0, hlen, rfl⟩ := concretizeOp_some_ok hx
+  refine ⟨outPre, outPost, v, hpre, hv, h0, ?_, rfl⟩
+  exact Nat.lt_of_lt_of_le (bytesBE_spec' v.toNat).2.1 (Nat.pow_le_pow_right (by omega) hlen)
 
 /-- `bytesBE` is the minimal big-endian representation: its length is the least
 `k ≥ 1` with `n < 256^k`, and it denotes `n`. -/
 theorem bytesBE_spec (n : Nat) :
     1 ≤ (bytesBE n).length ∧ n < 256 ^ (bytesBE n).length ∧
     (∀ k, 1 ≤ k → n < 256 ^ k → (bytesBE n).length ≤ k) ∧
-    (bytesBE n).foldl (fun acc b => acc * 256 + b) 0 = n ∧ (∀ b ∈ bytesBE n, b < 256) := by
-  sorry
+    (bytesBE n).foldl (fun acc b => acc * 256 + b) 0 = n ∧ (∀ b ∈ bytesBE n, b < 256) :=
+  bytesBE_spec' n
 
 /-- C07 (constants).  A variable-sized push whose operand mentions no label gets
 exactly the minimal width of its value (one byte for zero), whatever else the
@@ -92,7 +236,42 @@ theorem closed_push_minimal (s : St) (n : Nat) (hn : n = pushCount s.ready)
     (hclosed : labelsOf s.macros evalFuel 0 e = .ok [])
     (v : Int) (hv : eval evalFuel s.ctx e = .ok v) (h0 : 0 ≤ v) (h32 : (bytesBE v.toNat).length ≤ 32) :
     ((layoutLoop s (32 * n + 2) (List.replicate n 1)).2.drop (pushCount pre)).headD 1 = (bytesBE v.toNat).length := by
-  sorry
+  have hB := bytesBE_length_pos v.toNat
+  have hnw : neededWidth v = (bytesBE v.toNat).length := by
+    unfold neededWidth byteLen
+    have : v.natAbs = v.toNat := by omega
+    rw [this]; omega
+  have hev : ∀ ls, eval evalFuel { s.ctx with labels := ls } e = .ok v := by
+    intro ls
+    rw [← hv]
+    exact eval_labels_irrelevant s.macros evalFuel 0 e hclosed s.ctx rfl ls evalFuel
+  have hstepW : ∀ ls w, stepWidth { s.ctx with labels := ls } e w = max w (bytesBE v.toNat).length := by
+    intro ls w
+    unfold stepWidth
+    rw [hev ls]
+    simp only []
+    rw [hnw]
+  have hidx : ∀ ls ws,
+      ((widthsPass { s.ctx with labels := ls } s.ready ws).drop (pushCount pre)).headD 1 =
+        max ((ws.drop (pushCount pre)).headD 1) (bytesBE v.toNat).length := by
+    intro ls ws
+    rw [hsplit, widthsPass_append, List.drop_left' (widthsPass_length ..), widthsPass_push,
+      List.headD_cons, hstepW]
+  have hinv := layoutLoop_invariant s
+    (fun ws => (ws.drop (pushCount pre)).headD 1 ≤ (bytesBE v.toNat).length)
+    (by intro ls ws h; simp only; rw [hidx]; omega)
+    (32 * n + 2) (List.replicate n 1)
+    (by
+      rw [List.drop_replicate]
+      cases n - pushCount pre with
+      | zero => exact hB
+      | succ k => exact hB)
+  have hst := (layoutLoop_stable s n hn).2.2.2
+  have h1 := hidx (layoutLoop s (32 * n + 2) (List.replicate n 1)).1
+    (layoutLoop s (32 * n + 2) (List.replicate n 1)).2
+  simp only at hst hinv
+  rw [hst] at h1
+  omega
 
 end Asm
 end EtkVerif
